@@ -59,6 +59,9 @@ func C03(w *sim.World, in *Info) (vs []V, antecedent bool, class string) {
 		vs = append(vs, V{"C03", "stored-from-non-get", srcEx.Spec.Method, "response obtained by a " + srcEx.Spec.Method + " was reused: " + ex.Summary()})
 	}
 	a, b := ReqURL(srcEx.Spec), ReqURL(ex.Spec)
+	if su, err := url.Parse(src.URL); err == nil && su.Host != "" {
+		a = su // what the origin was actually asked for
+	}
 	c := oracle.CompareURI(a, b)
 	if c == oracle.Distinct {
 		vs = append(vs, V{"C03", "foreign-uri", diffClass(a, b),
